@@ -174,6 +174,9 @@ func (*Scanner).identifier [C13, C03]
   loop 0 invariant J(s) && P(s) && s.cur >= old(s.cur) && s.start == old(s.start) && s.startLine == old(s.startLine) && s.startColumn == old(s.startColumn)
   loop 0 decreases len(s.src) - s.cur
 
+// the escape characters of the language: a b n r t backslash and the literal's own quote
+spec escapeOK(r int, quote int) bool := r == 97 || r == 98 || r == 110 || r == 114 || r == 116 || r == 92 || r == quote
+
 // escape sequences: exactly \a \b \n \r \t \\ and the closing quote are accepted; anything else is reported
 func (*Scanner).scanEscape [C13, C19, C03]
   safe
@@ -182,6 +185,9 @@ func (*Scanner).scanEscape [C13, C19, C03]
   ensures J(s) && P(s) && s.cur >= old(s.cur) && s.cur < len(s.src) && curRune(s) != 10 && s.start == old(s.start)
   ensures result ==> s.cur == old(s.cur) + 1
   ensures !result ==> s.cur == old(s.cur)
+  // exactly the seven escape sequences are accepted; every other one is reported as an error
+  ensures result <==> (old(s.cur) + 1 < len(s.src) && escapeOK(utf8.runeA(arr(s.src), off(s.src) + old(s.cur) + 1), quote))
+  ensures !result ==> $deliveredErr
 
 func (*Scanner).string [C13, C19, C03]
   safe
